@@ -919,6 +919,11 @@ fn do_provide(s: &mut Pool3, ctx: &mut Ctx, actor: usize, amounts: [u128; 3], sl
             if stable_deposit_verdict(sp, before.share, sd, minted, t18) == Slip::MustReject {
                 ctx.fail("C15", "trio_deposit_accepted_beyond_tolerance", "deposit", None, format!("3-pool deposit {:?} into {:?} (S {}) minted {minted} accepted with slippage_tolerance {t}", amounts, before.reserves, before.share));
             }
+        } else if r.outcome.err_text().contains("slippage_tolerance cannot bigger than 1") && t18 <= E18 {
+            // a tolerance inside [0, 1] is a valid request; refusing it as out of range rejects a request
+            // within the limits
+            ctx.eval("C15");
+            ctx.fail("C15", "trio_deposit_rejected_within_tolerance", "valid_tolerance_refused_as_out_of_range", None, format!("3-pool deposit with slippage_tolerance {t} (<= 1) was refused as 'cannot bigger than 1'"));
         } else if r.outcome.err_text().contains("Slippage tolerance exceeded") && t18 <= E18 {
             ctx.eval("C15");
             ctx.probe("trio_deposit_rejected_for_slippage");
